@@ -471,25 +471,43 @@ def text_of(b):
 
 
 def abnormal(res, ignore_injected=False):
-    """C16-style monitor over one finished process: returns a site string or None."""
+    """C16-style monitor over one finished process: returns a site string or None.
+
+    Abnormal = the process did not end with exit status 0 or 1 (a panic that escaped: 101, an abort or
+    any other signal, a stack overflow).  A panic message on stderr of a process that nevertheless ends
+    with 0 or 1 is a *contained* panic (parser / macro / snippet boundary), which the property allows;
+    use contained_panic() to count those."""
     err = text_of(res.stderr)
     if res.timed_out:
         return None
+    if res.signal is None and res.exit in (0, 1):
+        return None
     if ignore_injected and "rustfmt_verif: injected panic" in err:
-        # the injected panic itself prints a message and backtrace; what matters is how the process ends
         err = re.sub(r"thread '[^']*' panicked at src/verif_hooks\.rs[^\n]*\n[^\n]*injected panic[^\n]*\n", "", err)
-    m = re.search(r"panicked at ([^\n]*?):(\d+):(\d+):\n?([^\n]*)", err)
-    if m:
-        f = m.group(1)
-        f = re.sub(r"^.*/registry/src/[^/]+/", "", f)
-        f = re.sub(r"^/rustc/[0-9a-f]+/", "rustc/", f)
-        return "panic@%s:%s" % (f, m.group(2))
-    if res.signal:
-        return "signal:%d" % res.signal
-    if "internal compiler error" in err:
-        return "ice"
+    site = panic_site(err)
+    if site:
+        return site
     if "stack overflow" in err:
         return "stack-overflow"
-    if res.exit not in (0, 1):
-        return "exit:%s" % res.exit
-    return None
+    if res.signal:
+        return "signal:%d" % res.signal
+    return "exit:%s" % res.exit
+
+
+def panic_site(err):
+    m = re.search(r"panicked at ([^\n]*?):(\d+):(\d+):\n?([^\n]*)", err)
+    if not m:
+        return None
+    f = m.group(1)
+    f = re.sub(r"^.*/registry/src/[^/]+/", "", f)
+    f = re.sub(r"^/rustc/[0-9a-f]+/", "rustc/", f)
+    return "panic@%s:%s" % (f, m.group(2))
+
+
+def contained_panic(res):
+    if res.timed_out or res.signal is not None or res.exit not in (0, 1):
+        return None
+    err = text_of(res.stderr)
+    if "rustfmt_verif: injected panic" in err:
+        return None
+    return panic_site(err)
